@@ -176,7 +176,7 @@ func (s *Server) serve(ctx context.Context, listener net.Listener, handler Modbu
 					conn.onErrorFunc(fmt.Errorf("failed to close handler connection, err: %w", err))
 				}
 				s.trackConn(c, false)
-				if s.OnAcceptConnFunc != nil {
+				if s.OnCloseConnFunc != nil {
 					s.OnCloseConnFunc(ctx, conn.conn.RemoteAddr(), s.isShutdown.Load())
 				}
 			}()
